@@ -20,6 +20,7 @@ type Recorder struct {
 	Lines  int
 	Hist   int
 	Counts map[string]int
+	Last   *State // the state of the line emitted last
 	// when set, every line is also kept (used by the determinism check)
 	Digests *[]string
 }
@@ -43,6 +44,7 @@ func (r *Recorder) Emit(ev Ev, cb []Callback, st *State) {
 	r.w.Write(b)
 	r.w.WriteByte('\n')
 	r.Lines++
+	r.Last = st
 	k := ev.Name
 	if !ev.OK {
 		k += "/rejected"
